@@ -43,7 +43,7 @@ __CPROVER_ensures(depth == g_depth0)
 ;
 
 void h_mark_value(void) {
-  Janet x;
+  Janet x; x.type = (JanetType) nd_int(); x.as.u64 = nd_u64();   /* explicit nondet (see gc_walk.c on uninitialised unions) */
   janet_mark(x);
   REACH("janet_mark returns");
 }
